@@ -64,7 +64,9 @@ func runC18(rc *RC) {
 		if withNick {
 			addr += "/nick" + fmt.Sprint(r)
 		}
-		seq := [][]string{{"join"}, {"join", "leave"}, {"join", "leave", "rejoin"}, {"join", "leave", "rejoin", "leave"}, {"join", "rejoin"}}[ch.Int("workload", 5)]
+		seq := [][]string{{"join"}, {"join", "leave"}, {"join", "leave", "rejoin"}, {"join", "leave", "rejoin", "leave"}, {"join", "rejoin"},
+			// the room removes the occupant on its own (kick, ban, room destroyed) while no call is in flight
+			{"join", "kick", "rejoin", "leave"}, {"join", "kick", "rejoin"}, {"join", "leave", "rejoin", "kick", "rejoin", "leave"}}[ch.Int("workload", 8)]
 		var pl []*mucCall
 		for _, k := range seq {
 			c := &mucCall{kind: k, room: addr, timeout: []time.Duration{300 * time.Millisecond, 2 * time.Second, 5 * time.Second}[ch.Int("workload", 3)],
@@ -109,6 +111,18 @@ func runC18(rc *RC) {
 					rc.OnCleanup(cancel)
 					cancel = func() {}
 				}
+				if c.kind == "kick" {
+					cancel()
+					if chn == nil {
+						continue
+					}
+					answers[c.room] = append(answers[c.room], roomAns{"kick", rc.S.Steps, rc.S.Now(), c})
+					e.PeerWrite(fmt.Sprintf(`<presence from="%s" type="unavailable"><x xmlns="http://jabber.org/protocol/muc#user"><item affiliation="none" role="none"><reason>bye</reason></item><status code="110"/><status code="307"/></x></presence>`, c.room))
+					rc.Fire("kick")
+					simrt.Sleep(time.Duration(ch.Range("workload", 1, 30)) * 10 * time.Millisecond)
+					c.done, c.ret, c.retStep = true, rc.S.Now(), rc.S.Steps
+					continue
+				}
 				pending[c.room] = c
 				c.start = rc.S.Now()
 				switch c.kind {
@@ -133,11 +147,12 @@ func runC18(rc *RC) {
 					j := chn.Joined()
 					c.joinedAfter = &j
 				}
-				if c.err != nil && c.kind != "leave" {
-					// a failed join: stop this room's sequence (the channel is not usable)
-					if c.kind == "join" {
-						return
+				if c.err != nil && c.kind == "join" {
+					var se stanza.Error
+					if chn == nil || errors.As(c.err, &se) {
+						return // refused by the room (or no channel to go on with): the sequence ends here
 					}
+					// a join that gave up: the application may try again through the channel it was handed
 				}
 			}
 		}))
@@ -311,6 +326,16 @@ func runC18(rc *RC) {
 		}
 		return false
 	}
+	// lateBefore: before call c started, the room wrote an unavailable presence answering an earlier leave of this occupant
+	// only after that leave had returned (a late answer)
+	lateBefore := func(c *mucCall) bool {
+		for _, a := range answers[c.room] {
+			if a.kind == "unavail" && a.for_ != c && a.for_.done && a.step > a.for_.retStep && a.step <= startStep[c] {
+				return true
+			}
+		}
+		return false
+	}
 	for _, pl := range plans {
 		for _, c := range pl {
 			if c.start == 0 && !c.done && !c.reqSeen {
@@ -354,8 +379,13 @@ func runC18(rc *RC) {
 				rc.Evals["C18.c5"]++
 				switch {
 				case c.err == nil:
-					if !sentBetween(c.room, "unavail", 0, c.retStep) {
-						rc.Failf("C18.c5", "leave-nil-without-unavailable", "leave %s returned nil at step %d but the room had never sent an unavailable presence for that occupant", c.room, c.retStep)
+					if !sentBetween(c.room, "unavail", startStep[c], c.retStep) && sentBetween(c.room, "unavail", 0, c.retStep) && lateBefore(c) {
+						// the unavailable presence it returned on is the late answer to an earlier Leave that had given up, which
+						// arrived while another call on this room was in flight: same root cause as the crossed rejoin (no
+						// correlation between requests and the room's presences)
+						rc.Failf("C18.c5", "leave-nil-without-unavailable:crossed-by-late-answer", "leave %s returned nil at step %d on the late answer to an earlier leave that had given up; the room had not answered this request yet: answers %v", c.room, c.retStep, answers[c.room])
+					} else if !sentBetween(c.room, "unavail", startStep[c], c.retStep) {
+						rc.Failf("C18.c5", "leave-nil-without-unavailable", "leave %s returned nil at step %d but the room had not sent an unavailable presence for that occupant since the previous call on this room returned (step %d): answers %v", c.room, c.retStep, startStep[c], answers[c.room])
 					}
 					rc.Evals["C18.c4"]++
 					if c.joinedAfter != nil && *c.joinedAfter {
